@@ -68,7 +68,7 @@ func decAbs(d, dflt sdkmath.LegacyDec) string {
 
 var maxInt256 = sdkmath.NewIntFromBigInt(new(big.Int).Sub(new(big.Int).Lsh(big.NewInt(1), 256), big.NewInt(1)))
 
-var coinNames = []string{"unset", "nilamt", "neg", "zero", "pos", "max", "baddenom", "nodenom"}
+var coinNames = []string{"unset", "nilamt", "neg", "zero", "pos", "max", "baddenom", "nodenom", "other"}
 
 // coinOf builds a coin WITHOUT validation (sdk.NewCoin would refuse most of these).
 func coinOf(name string, dflt sdk.Coin) sdk.Coin {
@@ -89,6 +89,9 @@ func coinOf(name string, dflt sdk.Coin) sdk.Coin {
 		return sdk.Coin{Denom: "1bad", Amount: dflt.Amount}
 	case "nodenom":
 		return sdk.Coin{Denom: "", Amount: dflt.Amount}
+	case "other":
+		// a perfectly valid positive coin, only of a denom other than the default's
+		return sdk.Coin{Denom: "btc", Amount: dflt.Amount}
 	}
 	panic("unknown abstract coin " + name)
 }
